@@ -37,13 +37,18 @@ fn runner_for(ctx: &Ctx, sub: &str) -> TestRunner {
 pub fn run_single<T>(spec: &Spec<T>, case: &T) -> Result<Result<CaseInfo, String>, String> {
     let mut project = Project::new(&format!("{}-single", spec.project), spec.prelude);
     project.extra_deps = spec.extra_deps.to_string();
-    let cases = vec![GenCase { id: 0, source: (spec.source)(case) }];
+    let cases = vec![GenCase {
+        id: 0,
+        source: (spec.source)(case),
+    }];
     let res = project.run_batch(&cases, 1)?;
     if let Some(msg) = res.rejected.get(&0) {
-        return Ok(Ok(CaseInfo::new(false).class("rejected-by-rustc")).map(|i| {
-            let _ = msg;
-            i
-        }));
+        return Ok(
+            Ok(CaseInfo::new(false).class("rejected-by-rustc")).map(|i| {
+                let _ = msg;
+                i
+            }),
+        );
     }
     if let Some(note) = res.crashed.get(&0) {
         return Ok(Err(format!("the generated program died: {note}")));
@@ -72,7 +77,14 @@ where
         }
     }
     let values: Vec<T> = trees.iter().map(|t| t.current()).collect();
-    let cases: Vec<GenCase> = values.iter().enumerate().map(|(id, v)| GenCase { id, source: (spec.source)(v) }).collect();
+    let cases: Vec<GenCase> = values
+        .iter()
+        .enumerate()
+        .map(|(id, v)| GenCase {
+            id,
+            source: (spec.source)(v),
+        })
+        .collect();
     let mut project = Project::new(spec.project, spec.prelude);
     project.extra_deps = spec.extra_deps.to_string();
     let res = match project.run_batch(&cases, spec.nbins) {
@@ -82,25 +94,39 @@ where
             return rep;
         }
     };
-    rep.extra.insert("build_secs".into(), serde_json::json!(res.build_secs));
-    rep.extra.insert("run_secs".into(), serde_json::json!(res.run_secs));
-    rep.extra.insert("rejected_by_rustc".into(), serde_json::json!(res.rejected.len()));
+    rep.extra
+        .insert("build_secs".into(), serde_json::json!(res.build_secs));
+    rep.extra
+        .insert("run_secs".into(), serde_json::json!(res.run_secs));
+    rep.extra.insert(
+        "rejected_by_rustc".into(),
+        serde_json::json!(res.rejected.len()),
+    );
     if let Some((id, msg)) = res.rejected.iter().next() {
         rep.extra.insert(
             "first_rejection".into(),
             serde_json::json!({"case": serde_json::to_value(&values[*id]).unwrap_or_default(), "error": msg.chars().take(1500).collect::<String>()}),
         );
     }
-    let rej_log = vcore::verif_root().join("logs").join(format!("progen-rejections-{}-{sub}.log", ctx.prop));
+    let rej_log = vcore::verif_root()
+        .join("logs")
+        .join(format!("progen-rejections-{}-{sub}.log", ctx.prop));
     let _ = std::fs::remove_file(&rej_log);
     if !res.rejected.is_empty() {
         let mut log = String::new();
         for (id, msg) in &res.rejected {
-            log.push_str(&format!("=== case {id}: {}\n{}\n", serde_json::to_string(&values[*id]).unwrap_or_default(), msg));
+            log.push_str(&format!(
+                "=== case {id}: {}\n{}\n",
+                serde_json::to_string(&values[*id]).unwrap_or_default(),
+                msg
+            ));
         }
         let dir = vcore::verif_root().join("logs");
         let _ = std::fs::create_dir_all(&dir);
-        let _ = std::fs::write(dir.join(format!("progen-rejections-{}-{sub}.log", ctx.prop)), log);
+        let _ = std::fs::write(
+            dir.join(format!("progen-rejections-{}-{sub}.log", ctx.prop)),
+            log,
+        );
     }
     if res.rejected.len() * 20 > n_cases.max(1) {
         // keep judging the programs that did compile: a violation among them is still a violation
@@ -108,7 +134,11 @@ where
             "HARNESS: {} of {} generated programs were rejected by rustc (domain drift); first: {}",
             res.rejected.len(),
             n_cases,
-            res.rejected.values().next().map(|s| s.chars().take(600).collect::<String>()).unwrap_or_default()
+            res.rejected
+                .values()
+                .next()
+                .map(|s| s.chars().take(600).collect::<String>())
+                .unwrap_or_default()
         ));
     }
     let mut first_failure: Option<(usize, String)> = None;
@@ -117,10 +147,14 @@ where
             continue;
         }
         let verdict = if let Some(note) = res.crashed.get(&id) {
-            Err(format!("the generated program died while running this case: {note}"))
+            Err(format!(
+                "the generated program died while running this case: {note}"
+            ))
         } else {
             match res.lines.get(&id) {
-                Some(line) if line.contains("harness_panic") => Err(format!("unexpected panic in the generated program: {line}")),
+                Some(line) if line.contains("harness_panic") => {
+                    Err(format!("unexpected panic in the generated program: {line}"))
+                }
                 Some(line) => (spec.judge)(v, line),
                 None => Err("HARNESS: no output line".into()),
             }
@@ -128,7 +162,10 @@ where
         match verdict {
             Ok(info) => rep.record(v, &info),
             Err(reason) if reason.starts_with("HARNESS") => {
-                rep.inconclusive = Some(format!("{reason}; case={}", serde_json::to_string(v).unwrap_or_default()));
+                rep.inconclusive = Some(format!(
+                    "{reason}; case={}",
+                    serde_json::to_string(v).unwrap_or_default()
+                ));
                 return rep;
             }
             Err(reason) => {
@@ -163,7 +200,8 @@ where
                 }
             }
         }
-        rep.extra.insert("shrink_steps".into(), serde_json::json!(steps));
+        rep.extra
+            .insert("shrink_steps".into(), serde_json::json!(steps));
         rep.fail(&best.0, best.1);
     }
     rep
